@@ -10,13 +10,13 @@ CHECKS = {
          'Decides the per-kind immittance / phasor formulas, the frequency gating (iff the kind carries a frequency, short/open, exact guard), the RMS / DC wrappers and that each solution is built from the network at its own frequency. Necessary conditions of C02 that hold for every value because they are properties of the code; exactness of the numeric solve is not decided.', '4/C02'),
  'C04': ('E1 normal form of the source-zeroing rewrites; argument-flow of the exemption list; attribute read-sets over the call graph',
          'Decides that zeroing rewrites keep name/terminals/immittance under exactly the stated guard, that exemption lists are threaded, and that the coefficient matrix never reads a source value. Linearity of the numeric solve itself is not decided.', '4/C04'),
- 'C05': ('E1 term normal forms of the six power formulas',
+ 'C05': ('E1 term normal forms of the six power formulas; index-space typing of the voltage / current read-back the formulas multiply',
          'Decides the five power formulas (V conj I, 1/2 for peak, V I, v(t) i(t), series product) and that both factors are queried for the same identifier. The conservation sum and sign inequalities follow mathematically but are not computed.', '4/C05'),
  'C07': ('table agreement (kinds vs dispatch table, keys written vs read), E1 normal forms per translator, traversal shape',
          'Exhaustive over the finite kind table: every constructible kind has a translator, reads only keys its constructor writes, uses every stored parameter, keeps id and terminal order on every path, and equals the per-kind formula; the traversal is one pass filtered only by table membership. Run-time parameter values are not explored.', '4/C07'),
  'C16': ('effect analysis (no write through network/keep) + E1 normal form of the contraction step, filters and reference-label threading',
          'Decides purity of the transformers, the terminal-wise rewrite of short contraction (absorbed->retained, element kept, exactly self-loops dropped, reference never absorbed), the open/element filters and label threading. Electrical equivalence of results is not decided.', '4/C16'),
- 'C17': ('table-vs-signature agreement, effect analysis, E1 formulas for complex notations, structural symmetry of the recursive converters, typed-error paths',
+ 'C17': ('table-vs-signature agreement, one literal entry evaluated through the loader (decidable lookup errors), key-order invariance of every two-valued kind (entry values applied to symbolic arguments), effect analysis, E1 formulas for complex notations, structural symmetry of the recursive converters, typed-error paths',
          'Decides that each loader entry passes every keyword exactly once to an accepting factory, that no loader/converter writes to its input, the Cartesian/polar/degree formulas, that dictify/undictify recurse alike, and the typed errors. Bit-exact float round trips are not decided.', '4/C17'),
  'C19': ('sign facts learnt from dominating raise guards (E1), path enumeration for identifier validation (E2), dispatch-table lookup discipline',
          'Decides that every constrained constructor parameter is guarded by a dominating raise, the network/circuit invariants and their path coverage, raising lookups in every kind table, and that every returning path of every query validates its identifier.', '4/C19'),
@@ -30,9 +30,9 @@ CHECKS.update({
          'Static form of renaming/permutation invariance: a position may depend on labels or listing order only through one map used on both sides; 280+ join obligations must hold for every label set (not just the suite\'s naming scheme). Floating-point summation order and the relation between two actual runs are not decided.', '4/C03'),
  'C06': ('def-use typestate of the inverted matrix, index-space typing through pruning, early-return shape, E1 formulas, import binding',
          'Decides that the inverted matrix has its ideal voltage sources shorted, that the node is located in the pruned layout of the same re-referenced network, the early returns / swap / terminal wiring, and the Thevenin / Norton / short-circuit formulas. Numerical symmetry and composition laws are not decided.', '4/C06'),
- 'C10': ('index-space typing of builder, accessors and wrapper; non-commutative matrix normal forms vs the MNA derivation; builder wiring; mirrored accessors',
+ 'C10': ('index-space typing of builder, accessors and wrapper; non-commutative matrix normal forms vs the MNA derivation; builder wiring; mirrored accessors; per-case normal forms of the current rows (own voltage row over own impedance, C times own state row)',
          'Decides that state order, source order and output-row addressing agree for every naming / listing order, that A, B, C, D normalise to the formulas derived from the MNA system (symmetric A~), and the argument wiring. Equality of transfer functions for actual values and conditioning are not decided.', '4/C10'),
- 'C11': ('structural prerequisites only: sign and order of Lambda, reciprocal, left multiplication, zero initial state',
+ 'C11': ('structural prerequisites only: diagonal algebra on the value matrix (sign and order of Lambda, element-wise reciprocal, no store into the value vector), index-space typing of everything that involves the state order, left multiplication, zero initial state',
          'Decides only necessary conditions (Lambda = diag(-C, +L) in state order, A = Lambda^-1 S, simulation from rest). The property\'s main clause -- definiteness of W A + A^T W, eigenvalue location, bounded energy -- quantifies over run-time values and is NOT decided.', '4/C11'),
  'C12': ('index-space typing of TransientSolution, E1 wiring of model construction, solver arguments and output-row pairing',
          'Decides that the model is built at w=0 from the circuit\'s own C/L values in listing order, inputs follow the published source order (= columns of B), the solver receives (A,B,I,0), u^T, tin, zero state, and each getter pairs c_row_Q with d_row_Q for the same id. Accuracy of lsim and the differential relations per sample are not decided.', '4/C12'),
@@ -48,7 +48,7 @@ CHECKS.update({
          'Decides for every adapter x quantity that the formatted value is (-1 if reverse else 1) x solution.get_Q(name) with the right unit and forwarded options, that draw_Q queries the name and direction it labels, and the constructor / declarative-kind wiring. The rendered text for actual numbers is not decided.', '4/C14'),
  'C15': ('agreement of the repository\'s own tables, read off their evaluated VALUES (each loader entry applied to exactly the saved keys of its kind with a decidable TypeError; element record written vs element rebuilt; handler table) and a symbolic save->load->translate fixed-point check',
          'Decides that each loader key rebuilds the class of that type from value keys its component kind really writes, that written = restored fields, the handler / direction / placement tables, and that re-translating the rebuilt symbol reproduces every fed-back value for all flag combinations (four recorded genuine defects are reported as KNOWN-FINDING). Equality of the reloaded drawing is not decided.', '4/C15'),
- 'C18': ('structural part only: SI prefix tables, exponent multiple of three by construction (E1), sign glyph guards, saturation tested first',
+ 'C18': ('structural part only: SI prefix tables in use (evaluated), exponent multiple of three by construction (E1), prefix letter + exponent extension = engineering exponent by partial evaluation over a finite exponent range per table, sign glyph guards, saturation tested first',
          'Decides only the table / structural clauses. The property\'s main clause -- half-unit accuracy of the digit string for every binary64 value -- is string arithmetic on run-time values and is NOT decided.', '4/C18'),
 })
 NOT_YET = {}
